@@ -299,6 +299,8 @@ class Waiting(State):
     DONE_CALLBACK = 'DONE_CALLBACK'
 
     _interruption = None
+    # A wake up (value, exception) that arrived after an interruption was delivered but before execute() re-armed the wait
+    _missed_wake_up: Optional[Tuple[Any, Optional[BaseException]]] = None
 
     def __str__(self) -> str:
         state_info = super().__str__()
@@ -347,6 +349,10 @@ class Waiting(State):
             # state is back to how it was before the interruption so that we can be
             # re-executed
             self._waiting_future = futures.Future()
+            if self._missed_wake_up is not None:
+                # We were woken up after having been interrupted but before getting here: do not lose it
+                wake_up, self._missed_wake_up = self._missed_wake_up, None
+                self._wake_up(*wake_up)
             raise
 
         if result == NULL:
@@ -358,11 +364,22 @@ class Waiting(State):
 
     def resume(self, value: Any = NULL) -> None:
         assert self._waiting_future is not None, 'Not yet waiting'
+        self._wake_up(value)
 
-        if self._waiting_future.done():
+    def _wake_up(self, value: Any = NULL, exception: Optional[BaseException] = None) -> None:
+        """End the wait with the given value, or exception.  Only the first wake up counts."""
+        future = self._waiting_future
+        if future.done():
+            interrupted = not future.cancelled() and isinstance(future.exception(), Interruption)
+            if interrupted and self._missed_wake_up is None:
+                # execute() has yet to deal with the interruption and re-arm the wait: keep the wake up until it does
+                self._missed_wake_up = (value, exception)
             return
 
-        self._waiting_future.set_result(value)
+        if exception is not None:
+            future.set_exception(exception)
+        else:
+            future.set_result(value)
 
 
 class Excepted(State):
